@@ -228,14 +228,18 @@ package diff
 
 //@ func (*SpecAnalyser).compareSimpleSchema
 //@ props C12 C13 C14
+//@ safety
 //@ modifies &sd.Diffs
 //@ requires sd != nil && schema1 != nil && schema2 != nil && vs_validSimple(schema1) && vs_validSimple(schema2)
-//@ ensures old(len(sd.Diffs)) <= len(sd.Diffs)
+//@ ensures old(len(sd.Diffs))+vs_simpleRows(schema1, schema2, 4) <= len(sd.Diffs)
 //@ ensures vs_all(func(i int) bool { return 0 <= i && i < old(len(sd.Diffs)) ==> sd.Diffs[i] == old(sd.Diffs[i]) })
 //@ ensures vs_all(func(i int) bool { return old(len(sd.Diffs)) <= i && i < len(sd.Diffs) ==> sd.Diffs[i].DifferenceLocation == location && sd.Diffs[i].Compatibility == getCompatibilityForChange(sd.Diffs[i].Code, vs_context(location)) })
-//@ ensures schema1.Nullable && !schema2.Nullable ==> sd.Diffs[old(len(sd.Diffs))].Code == ChangedOptionalToRequired
-//@ ensures schema1.CollectionFormat != schema2.CollectionFormat ==> vs_hasDiffCode(sd.Diffs, old(len(sd.Diffs)), ChangedCollectionFormat)
-//@ ensures vs_sameSimple(schema1, schema2) && !isArray(schema1) ==> len(sd.Diffs) == old(len(sd.Diffs))
+//@ ensures schema1.Nullable != schema2.Nullable ==> sd.Diffs[old(len(sd.Diffs))].Code == vs_nullableCode(schema1.Nullable)
+//@ ensures schema1.CollectionFormat != schema2.CollectionFormat ==> sd.Diffs[old(len(sd.Diffs))+vs_simpleRows(schema1, schema2, 1)].Code == ChangedCollectionFormat
+//@ ensures schema1.Default != schema2.Default ==> sd.Diffs[old(len(sd.Diffs))+vs_simpleRows(schema1, schema2, 2)].Code == vs_presenceCode(schema1.Default, schema2.Default, AddedDefault, DeletedDefault, ChangedDefault)
+//@ ensures schema1.Example != schema2.Example ==> sd.Diffs[old(len(sd.Diffs))+vs_simpleRows(schema1, schema2, 3)].Code == vs_presenceCode(schema1.Example, schema2.Example, AddedExample, DeletedExample, ChangedExample)
+//@ ensures isArray(schema1) && !isArray(schema2) ==> len(sd.Diffs) == old(len(sd.Diffs))+vs_simpleRows(schema1, schema2, 4)+1 && sd.Diffs[old(len(sd.Diffs))+vs_simpleRows(schema1, schema2, 4)].Code == ChangedType
+//@ ensures !isArray(schema1) ==> len(sd.Diffs) == old(len(sd.Diffs))+vs_simpleRows(schema1, schema2, 4)
 
 //@ func (*SpecAnalyser).compareSchema
 //@ props C12 C13 C14
